@@ -1,7 +1,7 @@
 (** C06 — parameter-expansion operators: a Gallina twin of the parts of
     brush-core/src/expansion.rs that decide what [${v<op>operand}] yields:
     [expand_parameter_without_indirect] (variable state -> [Expansion]), [Expansion::classify],
-    the four [:-]-family arms, [ParameterLength]/[polymorphic_len], the [Substring] arm with
+    the four [:-]-family arms, [ParameterLength]/[polymorphic_len_old], the [Substring] arm with
     [polymorphic_subslice] (array and string branches, machine arithmetic checked), and the
     double-quoted rendering of the result ([process_double_quoted_pieces], one piece).
 
@@ -177,14 +177,14 @@ Definition utf8_len (c : char) : nat :=
   if (c <? 128)%N then 1 else if (c <? 2048)%N then 2 else if (c <? 65536)%N then 3 else 4.
 Definition byte_len (s : str) : nat := fold_left (fun a c => (a + utf8_len c)%nat) s 0%nat.
 
-(** [polymorphic_len] on the unchanged tree: element count for arrays, else the sum of the
+(** [polymorphic_len_old] on the unchanged tree: element count for arrays, else the sum of the
     *byte* lengths ([String::len]) of the fields. *)
-Definition polymorphic_len (e : expansion) : nat :=
+Definition polymorphic_len_old (e : expansion) : nat :=
   if from_array e then length (fields e)
   else fold_left (fun a f => (a + byte_len f)%nat) (fields e) 0%nat.
 
 (** after the repair: characters. *)
-Definition polymorphic_len' (e : expansion) : nat :=
+Definition polymorphic_len (e : expansion) : nat :=
   if from_array e then length (fields e)
   else fold_left (fun a f => (a + length f)%nat) (fields e) 0%nat.
 
@@ -197,8 +197,8 @@ Definition parameter_length_with (plen : expansion -> nat) (sh : shell) (r : pre
   | Fail => Fail
   | Panic => Panic
   end.
+Definition parameter_length_old := parameter_length_with polymorphic_len_old.
 Definition parameter_length := parameter_length_with polymorphic_len.
-Definition parameter_length' := parameter_length_with polymorphic_len'.
 
 (** * Substring *)
 Definition two64 : Z := 2 ^ 64.
@@ -243,9 +243,9 @@ Definition is_args (r : pref) : bool := match r with RArgs _ => true | _ => fals
 Definition with_shell_name (sh : shell) (r : pref) (e : expansion) : expansion :=
   if is_args r then with_fields e (shell_name sh :: fields e) else e.
 
-(** The [Substring] arm on the unchanged tree. [off], [olen]: values of the arithmetic
+(** The [Substring] arm as it was before commit 1f6bbbf (kept for the regression examples). [off], [olen]: values of the arithmetic
     operands (i64). No i64 overflow is possible in the arm (shown in ParamProofs). *)
-Definition substring_bounds (plen off : Z) (olen : option Z) : Z * Z :=
+Definition substring_bounds_old (plen off : Z) (olen : option Z) : Z * Z :=
   let off1 := if off <? 0 then (let o := off + plen in if o <? 0 then plen else o) else off in
   let off2 := Z.min off1 plen in
   let end_ := match olen with
@@ -257,23 +257,23 @@ Definition substring_bounds (plen off : Z) (olen : option Z) : Z * Z :=
               end in
   (off2, end_).
 
-Definition substring (sh : shell) (r : pref) (off : Z) (olen : option Z) : res expansion :=
+Definition substring_old (sh : shell) (r : pref) (off : Z) (olen : option Z) : res expansion :=
   match expand_parameter sh r false with
   | Ok e0 =>
       let e := with_shell_name sh r e0 in
-      let plen := Z.of_nat (polymorphic_len e) in
-      let '(o, en) := substring_bounds plen off olen in
+      let plen := Z.of_nat (polymorphic_len_old e) in
+      let '(o, en) := substring_bounds_old plen off olen in
       polymorphic_subslice e (as_usize o) (as_usize en)
   | Fail => Fail
   | Panic => Panic
   end.
 
-(** The arm after the repair (see notes/C06.md for the Rust text):
+(** The [Substring] arm (after the repair 1f6bbbf; see notes/C06.md for the Rust text):
     character length; an unset parameter (or an array without elements) yields itself; an offset outside [0, len] yields the
     empty slice before the length is looked at; a negative length is an end offset from the
     end, an error for arrays and when it ends before the start. *)
 Inductive pkind := PScalar | PArray | PArgs.
-Definition substring_bounds' (k : pkind) (plen off : Z) (olen : option Z) : option (Z * Z) :=
+Definition substring_bounds (k : pkind) (plen off : Z) (olen : option Z) : option (Z * Z) :=
   let off1 := if off <? 0 then off + plen else off in
   if (off1 <? 0) || (plen <? off1) || (match k with PArray => plen <=? off1 | _ => false end) then Some (plen, plen)
   else
@@ -288,14 +288,14 @@ Definition substring_bounds' (k : pkind) (plen off : Z) (olen : option Z) : opti
         else Some (off1, off1 + Z.min l (plen - off1))
     end.
 
-Definition substring' (sh : shell) (r : pref) (off : Z) (olen : option Z) : res expansion :=
+Definition substring (sh : shell) (r : pref) (off : Z) (olen : option Z) : res expansion :=
   match expand_parameter sh r false with
   | Ok e0 =>
       let e := with_shell_name sh r e0 in
       if undefined e || is_nil (fields e) then Ok e
       else
-        let plen := Z.of_nat (polymorphic_len' e) in
-        match substring_bounds' (if is_args r then PArgs else if from_array e then PArray else PScalar) plen off olen with
+        let plen := Z.of_nat (polymorphic_len e) in
+        match substring_bounds (if is_args r then PArgs else if from_array e then PArray else PScalar) plen off olen with
         | Some (o, en) => polymorphic_subslice e (as_usize o) (as_usize en)
         | None => Fail
         end
@@ -303,14 +303,44 @@ Definition substring' (sh : shell) (r : pref) (off : Z) (olen : option Z) : res 
   | Panic => Panic
   end.
 
+(** ** Order of evaluation of the operands.  An arithmetic operand is a value, an error flag
+    (division by zero …: evaluating it fails the expansion) and a side effect (what it adds to
+    a counter variable, [i++], [i+=10]).  The arm evaluates the offset only when the parameter
+    has something to slice, and the length only when the offset lies inside the value; the
+    second component is the counter after the expansion. *)
+Record operand := { oval : Z; oerr : bool; oinc : Z }.
+
+Definition offset_out_of_range (k : pkind) (plen off : Z) : bool :=
+  let off1 := if off <? 0 then off + plen else off in
+  (off1 <? 0) || (plen <? off1) || (match k with PArray => plen <=? off1 | _ => false end).
+
+Definition substring_ev (sh : shell) (r : pref) (off : operand) (olen : option operand) : res expansion * Z :=
+  match expand_parameter sh r false with
+  | Ok e0 =>
+      let e := with_shell_name sh r e0 in
+      if undefined e || is_nil (fields e) then (Ok e, 0)
+      else if oerr off then (Fail, 0)
+      else
+        let plen := Z.of_nat (polymorphic_len e) in
+        let k := if is_args r then PArgs else if from_array e then PArray else PScalar in
+        if offset_out_of_range k plen (oval off) then (substring sh r (oval off) None, oinc off)
+        else match olen with
+             | None => (substring sh r (oval off) None, oinc off)
+             | Some l => if oerr l then (Fail, oinc off)
+                         else (substring sh r (oval off) (Some (oval l)), oinc off + oinc l)
+             end
+  | Fail => (Fail, 0)
+  | Panic => (Panic, 0)
+  end.
+
 (** * Removal operators: [transform_expansion] maps the loop over the fields. *)
 Inductive rop := RmSmallestPrefix | RmLargestPrefix | RmSmallestSuffix | RmLargestSuffix.
 
 Definition remove_with (repaired : bool) (m : str -> bool) (o : rop) (s : str) : str :=
   match o with
-  | RmSmallestPrefix => if repaired then remove_smallest_prefix' m s else remove_smallest_prefix m s
+  | RmSmallestPrefix => if repaired then remove_smallest_prefix m s else remove_smallest_prefix_old m s
   | RmLargestPrefix => remove_largest_prefix m s
-  | RmSmallestSuffix => if repaired then remove_smallest_suffix' m s else remove_smallest_suffix m s
+  | RmSmallestSuffix => if repaired then remove_smallest_suffix m s else remove_smallest_suffix_old m s
   | RmLargestSuffix => remove_largest_suffix m s
   end.
 
